@@ -904,9 +904,10 @@ class Configuration(object):
         #   behave --color auto features/some.feature   # NO_PROBLEM
         if "--color" in command_args:
             color_arg_pos = command_args.index("--color")
-            next_arg = command_args[color_arg_pos + 1]
-            if os.path.exists(next_arg):
-                command_args.insert(color_arg_pos + 1, "--")
+            if color_arg_pos + 1 < len(command_args):
+                next_arg = command_args[color_arg_pos + 1]
+                if os.path.exists(next_arg):
+                    command_args.insert(color_arg_pos + 1, "--")
 
         if verbose is None:
             # -- AUTO-DISCOVER: Verbose mode from command-line args.
